@@ -167,3 +167,38 @@ pub fn run(r: &mut Rng, n: usize, out: &mut Out) {
         }
     }
 }
+
+/// cross-check of the extracted code tables against the running crate: every u16 code through
+/// `RecordType`/`QueryType`/`RecordClass`/`QueryClass`, every u8 through `Opcode`/`Rcode`.
+pub fn run_tables(out: &mut Out) {
+    for code in 0..=65535u16 {
+        let rt = RecordType::from(code);
+        let qt = QueryType::from(code);
+        let rc = RecordClass::from(code);
+        let qc = QueryClass::from(code);
+        let b = |x: bool| if x { 1 } else { 0 };
+        out.case(
+            &["table.code", &code.to_string()],
+            &format!(
+                "rt:{}/{} qt:{}/{} rc:{}/{} qc:{}/{} m:{}{}{}",
+                b(rt.is_unknown()),
+                u16::from(rt),
+                b(qt.is_unknown()),
+                u16::from(qt),
+                b(rc.is_unknown()),
+                u16::from(rc),
+                b(qc.is_unknown()),
+                u16::from(qc),
+                b(RecordType::A.matches(qt)),
+                b(RecordType::CNAME.matches(qt)),
+                b(RecordClass::IN.matches(qc)),
+            ),
+        );
+    }
+    for octet in 0..=255u8 {
+        out.case(
+            &["table.nibble", &octet.to_string()],
+            &format!("op:{} rc:{}", u8::from(Opcode::from(octet)), u8::from(Rcode::from(octet))),
+        );
+    }
+}
